@@ -168,8 +168,11 @@ func (o *Out) Tick() { o.tick() }
 // watchdog: code under test that blocks forever (a lock that is never released, a wait nobody answers) must end the
 // run with a replay, not hang it. After XV_HANG_SECS (default 300) without progress the stacks of all goroutines and
 // the current case go to hang.txt / current_case.ops and the process exits with status 7.
+// DefaultHangSecs: an engine whose operations all finish within seconds lowers it before NewOut
+var DefaultHangSecs = 300
+
 func (o *Out) watchdog() {
-	limit := time.Duration(EnvInt("XV_HANG_SECS", 300)) * time.Second
+	limit := time.Duration(EnvInt("XV_HANG_SECS", DefaultHangSecs)) * time.Second
 	for {
 		time.Sleep(time.Second)
 		if atomic.LoadInt32(&o.closed) != 0 {
